@@ -106,8 +106,9 @@ def check(run):
                 mutable.add(dotted(n.targets[0]).split(".")[1])
     reqf = ix.method(cls, "request")
     n7 = 0
+    queued = {dotted(n.args[0]) for n in walk_local(reqf.node) if isinstance(n, ast.Call) and method_call(n) == ("self.requests", "append") and n.args}
     for n in walk_local(reqf.node):
-        if isinstance(n, ast.Assign) and isinstance(n.targets[0], ast.Subscript) and dotted(n.targets[0].value) == "request":
+        if isinstance(n, ast.Assign) and isinstance(n.targets[0], ast.Subscript) and dotted(n.targets[0].value) in queued:
             for sub in ast.walk(n.value):
                 if isinstance(sub, ast.Attribute) and dotted(sub) and dotted(sub).startswith("self.requester.") and sub.attr in mutable:
                     par = parent(sub)
@@ -159,8 +160,13 @@ def check(run):
     ok = False
     if refusal:
         r = refusal[0]
-        t = unparse(r.test)
-        ok = "self.requester.scheme == 'https'" in t and "scheme != 'https'" in t
+        # the new scheme is whichever local is bound from `<urlsplit result>.scheme`
+        newscheme = {n.targets[0].id for n in walk_local(rd.node) if isinstance(n, ast.Assign) and isinstance(n.targets[0], ast.Name)
+                     and isinstance(n.value, ast.Attribute) and n.value.attr == "scheme" and not (dotted(n.value) or "").startswith("self.")}
+        cmps = [c for c in ast.walk(r.test) if isinstance(c, ast.Compare) and len(c.ops) == 1 and getattr(c.comparators[0], "value", None) == "https"]
+        ok = isinstance(r.test, ast.BoolOp) and isinstance(r.test.op, ast.And) \
+            and any(dotted(c.left) == "self.requester.scheme" and isinstance(c.ops[0], ast.Eq) for c in cmps) \
+            and any(dotted(c.left) in newscheme and isinstance(c.ops[0], ast.NotEq) for c in cmps)
         closes = [n for n in walk_local(rd.node) if isinstance(n, ast.Call) and method_call(n) == ("self.connector", "close")]
         newc = [n for n in walk_local(rd.node) if isinstance(n, ast.Call) and (dotted(n.func) or "").endswith("tcp.Client")]
         ok = ok and all(c.lineno > r.end_lineno for c in closes + newc) and bool(closes) and bool(newc)
